@@ -39,7 +39,8 @@ def gen_desc(rng):
         pos += size
     cid_mode = rng.pick(['arg', 'arg', 'essential', 'withheld', 'withheld'])
     otp_mode = rng.pick(['arg-dec', 'arg-enc', 'essential', 'essential-enc'])
-    return {'dev': int(rng.chance(0.3)), 'parts': parts, 'cid': rng.rbytes(16), 'cid_mode': cid_mode, 'otp_mode': otp_mode,
+    return {'otp_history': rng.pick([0, 0, 0, 1, 2]),
+            'dev': int(rng.chance(0.3)), 'parts': parts, 'cid': rng.rbytes(16), 'cid_mode': cid_mode, 'otp_mode': otp_mode,
             'image_mu': rng.pick([0x200000, 0x280000]), 'otp_seed': rng.getrandbits(32), 'layout': layout,
             'auto_raise': int(rng.chance(0.5)), 'seed': rng.getrandbits(32), 'tail': rng.pick([0, 0, 0x200])}
 
@@ -128,7 +129,21 @@ def render_real(nand):
 def open_real(img, info, desc, bio=None):
     from pyctr.type.nand import NAND
     bio = bio if bio is not None else io.BytesIO(img)
-    return NAND(bio, dev=bool(desc['dev']), otp=info['otp_arg'], cid=info['cid_arg'], auto_raise_exceptions=bool(desc['auto_raise'])), bio
+    kw = {}
+    if desc.get('otp_history') and info['otp_arg'] is not None:
+        # (only when the OTP is given as an ARGUMENT: an engine that already has console-unique keys is documented to keep them when
+        # the OTP would otherwise be taken from essential.exefs - `if not self._crypto.otp_keys_set` - so that case says nothing)
+        # the engine has a HISTORY: it is handed in by the caller and has already loaded ANOTHER console's OTP (a tool that goes through
+        # several NAND backups with one engine) - the keys must be those of the OTP that belongs to this image
+        import envsetup
+        e = envsetup.install()
+        target = 'dev' if desc['dev'] else 'retail'
+        okey, oiv = e._otp_key_iv[target]
+        _, other_dec, other_enc = nb.make_otp(Rng(desc['otp_seed'] + 77), False, okey, oiv)
+        eng = e.CryptoEngine(dev=bool(desc['dev']))
+        eng.setup_keys_from_otp(other_dec if desc['otp_history'] == 1 else other_enc)
+        kw['crypto'] = eng
+    return NAND(bio, dev=bool(desc['dev']), otp=info['otp_arg'], cid=info['cid_arg'], auto_raise_exceptions=bool(desc['auto_raise']), **kw), bio
 
 
 def view_real(nand, view):
@@ -313,7 +328,8 @@ class C13(Check):
 
         exp_ctr, exp_twl, csub, tsub = expect(img)
         must_fail = bool(desc['auto_raise']) and (not csub or not tsub)
-        info_d = {f'layout:{desc["layout"]}': 1, f'cid:{desc["cid_mode"]}': 1, f'otp:{desc["otp_mode"]}': 1,
+        info_d = {f'engine loaded another console\'s OTP before:{bool(desc.get("otp_history")) and desc["otp_mode"].startswith("arg")}': 1,
+                  f'layout:{desc["layout"]}': 1, f'cid:{desc["cid_mode"]}': 1, f'otp:{desc["otp_mode"]}': 1,
                   f'dev:{desc["dev"]}': 1}
         if nand is None:
             if not must_fail:
